@@ -19,6 +19,7 @@ import pysam
 from ..gen import sim
 from ..gen import c06_gen as G
 from ..gen import c06_filter as F
+from ..gen import c06_mav as MV
 
 RULE = ("(read, variant) pairs of error-free reads (exact copies of a haplotype, canonical CIGAR with indels at the "
         "normalised position; decorated with S/H clips, N skips, =/X, unrelated indels, mates) over random references "
@@ -33,7 +34,12 @@ RULE = ("(read, variant) pairs of error-free reads (exact copies of a haplotype,
         "Filter stream: alignment records of 1-2 BAM files (flags, mapq around the threshold, read groups of three samples / "
         "none, SEQ '*', CIGAR '*', BX/HP/PS tags, supplementary alignments, poison copies carrying the opposite alleles under "
         "flags that must be filtered) under random reader configurations, samples and regions; a record is non-trivial if "
-        "it is a poison record that must be dropped or a usable error-free alignment")
+        "it is a poison record that must be dropped or a usable error-free alignment. Multi-allelic stream: VCF records with 1-4 ALT "
+        "alleles (several SNVs; nested insertions = one ALT's inserted bases a proper prefix of another's, every listing order; "
+        "unrelated / suffix-related insertions; nested deletions; SNV+insertion, SNV+deletion, insertion+deletion, MNP+deletion, "
+        "mixed; bi-allelic neighbours) isolated, close (0-14 bp) and as twins, haplotypes (ploidy 2-4) carrying any allele, read through "
+        "VcfReader(mav=True) and ReadSetReader.read with / without a reference (optionally restricted to the sample's genotype); "
+        "distinct = distinct (mode, family, allele kinds and lengths, carried allele, CIGAR, offsets)")
 MANIFEST = dict(
     text="Lean 4 theorems about a hand-written model of the CIGAR/variant lock-step walk, the CIGAR split and prefix "
          "arithmetic, the re-alignment decision and the no-reference detector: the walk equals the alignment's "
@@ -76,8 +82,10 @@ ASSUMPTIONS = [
     "the alignments handed to the model are what pysam's fetch delivers (htslib's overlap test is trusted, reference_end is "
     "tied to the CIGAR on every record); with several BAM files the precedence between errors of different files is not "
     "modelled (error vs. no error is compared)",
-    "variant positions unique and sorted (ReadSetReader.read asserts uniqueness; VCF order); bi-allelic records in the "
-    "ground-truth streams, multi-allelic ones only in synthetic calls",
+    "variant positions unique and sorted (ReadSetReader.read asserts uniqueness; VCF order); multi-allelic records (read with "
+    "VcfReader(mav=True)) in the ground-truth streams have 2-4 ALT alleles, each ONE simple change (SNV, MNP, unshiftable "
+    "insertion / deletion directly behind the anchor base) so that the canonical alignment of a haplotype is unique; without a "
+    "reference only 'carried allele or none' is demanded of them (records with an MNP allele: not claimed)",
     "edit_distance is true Levenshtein distance (property C19)",
     "reads carry a sequence (SEQ '*' is outside the property; the crash of read() on such a record is modelled as it is and "
     "reported as an observation, proposed finding F40)",
@@ -429,6 +437,12 @@ def check_noref(ctx, cases):
         if inorm != outs[2 * n + 1]:
             ctx.disagree("c06.normalize", c, inorm, outs[2 * n + 1])
         impl = impl_noref(c)
+        if "F126" in FIXED and outs[2 * n].get("out"):
+            gone = f126_unjudged(inorm["normalized"], c["start"], c["cigar"])
+            outs[2 * n]["out"] = [t for t in outs[2 * n]["out"] if t[0] not in gone]
+            ps = [v[0] for v in inorm["normalized"]]
+            if gone and ps != sorted(ps):
+                continue    # the adapter is exact for position-sorted lists only (VCF order); unsorted synthetic lists: not compared
         if impl != outs[2 * n]:
             ctx.disagree("c06.detect_noref", c, impl, outs[2 * n])
         if impl["out"]:
@@ -1098,6 +1112,248 @@ def oracle(ctx, case, label, mode, hv, listed, by_name, got, per_aln, valid=None
 
 
 # ------------------------------------------------------------------------------------------------
+# O: MULTI-ALLELIC records with ground truth (VcfReader(mav=True) -> ReadSetReader.read; the path of polyphase / haplotagphase)
+# ------------------------------------------------------------------------------------------------
+
+def write_mav_inputs(d, case):
+    contigs = {"chr1": case["ref"]}
+    sites = [MV.MSite.from_list(l) for l in case["sites"]]
+    listed = [(i, s) for i, s in enumerate(sites) if s.listed]
+    fa, vcf, bam = (os.path.join(d, "in" + e) for e in (".fasta", ".vcf", ".bam"))
+    sim.write_fasta(fa, contigs)
+    reads = [{"name": r["name"], "chrom": "chr1", "start": r["start"], "cigar": [tuple(x) for x in r["cigar"]], "seq": r["seq"],
+              "flag": r["flag"], "rg": "rg1", "mapq": 60, "qual": 30} for r in case["reads"]]
+    sim.write_bam(bam, contigs, reads, [("rg1", "S1")])
+    sim.write_vcf(vcf, contigs, ["S1"], [{"chrom": "chr1", "pos": s.pos, "ref": s.ref, "alts": s.alt_seqs(),
+                                           "calls": [{"GT": "/".join(str(h[i]) for h in case["haps"])}], "format": ["GT"]}
+                                          for i, s in listed])
+    return fa, bam, vcf, sites, listed
+
+
+def run_mav_scenario(ctx, case, label):
+    """multi-allelic (and neighbouring bi-allelic) records read by the real VcfReader with mav=True, alleles detected by the real
+    ReadSetReader with / without a reference (Levenshtein, affine; optionally restricted to the sample's genotype as
+    haplotagphase does); oracle: recorded allele of an error-free fully covering read = carried allele, or none"""
+    from whatshap.variants import ReadSetReader
+    from whatshap.core import NumericSampleIds
+    from whatshap.vcf import VcfReader
+    from whatshap.utils import IndexedFasta
+    d = os.path.join(ctx.workdir(), "mav")
+    shutil.rmtree(d, ignore_errors=True)
+    os.makedirs(d)
+    try:
+        fa, bam, vcf, sites, listed = write_mav_inputs(d, case)
+        if not listed:
+            return
+        with VcfReader(vcf, only_snvs=False, mav=True) as vr:
+            tables = list(vr)
+        table = tables[0] if tables else None
+        vlist = table.variants if table else []
+        vjson = [[s.pos, s.ref, s.alt_seqs()] for _, s in listed]
+        if [[v.position, v.reference_allele, list(v.get_alt_allele_list())] for v in vlist] != vjson:
+            ctx.evaluated()
+            ctx.fail("VcfReader(mav=True) does not deliver the records of the VCF (multi-allelic record lost or altered)",
+                     {"label": label, "got": [repr(v) for v in vlist], "want": vjson, "case": case}, key="mav-vcf-record-lost")
+            return
+        genotypes = [sorted(g.as_vector()) for g in table.genotypes_of("S1")]
+        want_gt = [sorted(h[i] for h in case["haps"]) for i, _ in listed]
+        if genotypes != want_gt:
+            ctx.disagree("c06.mav-genotypes", {"label": label}, genotypes, want_gt)
+        restricted = table.genotypes_of("S1") if (case.get("cfg") or {}).get("restricted") else None
+        rjson = want_gt if restricted is not None else None
+        fasta = IndexedFasta(fa)
+        reads = G.case_reads(case)
+        by_name = {}
+        for r in reads:
+            by_name.setdefault(r["name"], []).append(r)
+        with pysam.AlignmentFile(bam) as af:
+            alns = list(af.fetch("chr1"))
+        for mode in ("ref", "noref", "affine"):
+            refarg = fasta["chr1"] if mode != "noref" else None
+            akw = dict(affine=True, gap_start=AFFINE_DEFAULT[0], gap_extend=AFFINE_DEFAULT[1],
+                       default_mismatch=AFFINE_DEFAULT[2]) if mode == "affine" else {}
+            reader = ReadSetReader([bam], reference=None, numeric_sample_ids=NumericSampleIds(), **akw)
+            try:
+                rs = reader.read("chr1", vlist, "S1", refarg, None, restricted if mode != "noref" else None)
+            except Exception as e:
+                ctx.evaluated()
+                ctx.fail(f"{mode}: ReadSetReader.read raised {_exc(e)} on error-free reads over multi-allelic records",
+                         {"label": label, "mode": mode, "case": case}, key=f"mav-crash-{_exc(e)}")
+                continue
+            finally:
+                reader.close()
+            got = {r.name: {v.position: v.allele for v in r} for r in rs}
+            # ---- K: per alignment, the Lean model of the detector on the same (multi-allelic) variant list
+            reqs = []
+            for a in alns:
+                common = dict(variants=vjson, ref_start=a.reference_start, cigar=[list(x) for x in a.cigartuples], query=a.query_sequence,
+                              asis=ASIS)
+                if mode == "noref":
+                    reqs.append(dict(op="c06.detect_noref", first=0, quals=list(a.query_qualities) if a.query_qualities is not None else None,
+                                     **common))
+                else:
+                    reqs.append(dict(op="c06.detect_ref_q", restricted=rjson, j=0, reference=case["ref"], overhang=10,
+                                     affine=_maff(AFFINE_DEFAULT) if mode == "affine" else None, **common))
+            outs = ctx.model.ask_many(reqs)
+            per_aln, per_aln_model = {}, {}
+            nvjson = impl_normalize(vjson)["normalized"] if mode == "noref" else None
+            for a, m in zip(alns, outs):
+                impl = impl_detect_mav(mode, vlist, a, case["ref"], restricted)
+                ctx.evaluated()
+                mm = {"out": m.get("out"), "err": m.get("err")}
+                if mode == "noref" and "F126" in FIXED and mm["out"]:
+                    gone = f126_unjudged(nvjson, a.reference_start, a.cigartuples)
+                    mm["out"] = [t for t in mm["out"] if t[0] not in gone]
+                if impl != mm:
+                    ctx.disagree(f"c06.mav.detect_{mode}", {"label": label, "read": a.query_name, "start": a.reference_start,
+                                                            "cigar": a.cigarstring, "query": a.query_sequence, "variants": vjson,
+                                                            "restricted": rjson if mode != "noref" else None,
+                                                            "reference": case["ref"] if mode != "noref" else None}, impl, mm)
+                ak = (0, a.query_name, a.flag, a.reference_start)
+                per_aln[ak] = {vjson[i][0]: al for i, al, q in (impl["out"] or [])}
+                per_aln_model[ak] = {vjson[i][0]: al for i, al, q in (mm["out"] or [])}
+            valid = set(impl_normalize(vjson)["valid"]) if mode == "noref" else None
+            mav_oracle(ctx, case, label, mode, listed, by_name, got, per_aln, per_aln_model, valid, restricted is not None)
+    finally:
+        shutil.rmtree(d, ignore_errors=True)
+
+
+def impl_detect_mav(mode, vlist, aln, reference, restricted):
+    from whatshap.variants import ReadSetReader
+    from whatshap._variants import _detect_alleles
+    out, err = [], None
+    try:
+        if mode == "noref":
+            nvs = [v.normalized() for v in vlist]
+            valid = ReadSetReader.detect_non_overlapping_variants(None, nvs)
+            vp = [ReadSetReader.build_var_progress(None, nvs, j) for j in valid]
+            vp.sort(key=lambda x: x.variant_id)
+            it = _detect_alleles(nvs, vp, 0, aln)
+        elif mode == "affine":
+            it = ReadSetReader.detect_alleles_by_alignment(vlist, restricted, 0, aln, reference, 10, True, *AFFINE_DEFAULT)
+        else:
+            it = ReadSetReader.detect_alleles_by_alignment(vlist, restricted, 0, aln, reference, 10)
+        for t in it:
+            out.append([int(x) for x in t])
+    except Exception as e:
+        err = _exc(e)
+    return {"out": out, "err": err}
+
+
+def mav_oracle(ctx, case, label, mode, listed, by_name, got, per_aln, per_aln_model, valid, restricted):
+    vidx = {i: n for n, (i, _) in enumerate(listed)}
+    for name in got:
+        if name not in by_name:
+            ctx.evaluated()
+            ctx.fail(f"{mode}: the ReadSet contains a read {name!r} that was never written", {"label": label, "mode": mode, "case": case},
+                     key="read-of-unknown-template")
+    for name, mates in by_name.items():
+        rec = got.get(name, {})
+        for i, s in listed:
+            ts = [m["truth"][i] for m in mates]
+            overlap = any(t["overlap"] for t in ts)
+            fulls = [t for t in ts if t["full"]]
+            partial = any(t["overlap"] and not t["full"] for t in ts)
+            g = rec.get(s.pos)
+            near = min((abs(m["start"] - s.pos) for m in mates), default=99)
+            if not overlap and g is None and near > 40:
+                continue
+            ctx.evaluated()
+            multi = len(s.alts) > 1
+            fam = s.family + ("" if len(s.alts) < 3 else f"/{len(s.alts)}alts")
+            ctx.dist(f"mav.pairs.{mode}", f"{fam}:{'full' if fulls else ('partial' if partial else 'no-overlap')}")
+
+            def where():
+                return {"label": label, "mode": mode, "read": name, "variant": repr(s), "family": s.family, "recorded": g,
+                        "mates": [{"start": m["start"], "cigar": m["cigar"], "flag": m["flag"], "truth": m["truth"][i]} for m in mates],
+                        "case": case}
+            if not overlap:
+                if g is not None:
+                    ctx.fail(f"allele {g} recorded for the record {s!r} the read does not overlap ({mode})", where(),
+                             key="allele-for-non-overlapped-variant")
+                continue
+            if not fulls or partial:
+                continue
+            a = fulls[0]["allele"]
+            carried = s.kind_of(a)
+            isolated = all(t["isolated"] for t in fulls)
+            near_n = min((t["near_n"] for t in fulls if t["near_n"] is not None), default=None)
+            near_skip = near_n is not None and near_n < 12
+            kinds = {x[1] for x in s.alts}
+            # the no-reference clause of C06 speaks of SNVs and unshiftable insertions/deletions (every indel allele generated here is
+            # unshiftable and placed at its own normalised position); records with an MNP allele are outside it
+            demanded_noref = "mnp" not in kinds
+            ctx.nontrivial(("mav", mode, s.family, tuple(x[1] for x in s.alts), tuple(len(x[0]) for x in s.alts), len(s.ref), a, isolated,
+                            near_n if near_skip else -1, restricted,
+                            tuple(tuple(m["cigar"]) for m in mates) if len(str(mates[0]["cigar"])) < 60 else len(mates[0]["cigar"]),
+                            tuple(s.pos - m["start"] for m in mates)))
+            ctx.dist(f"mav.carried.{mode}", f"{s.family}:{carried}:" + ("found" if g == a else ("none" if g is None else "WRONG")))
+            if g == a:
+                continue
+            if g is None and len(mates) > 1:
+                seen = [per_aln.get(akey(m), {}).get(s.pos) for m in mates if m["truth"][i]["full"]]
+                wrong = [x for x in seen if x is not None and x != a]
+                if wrong:
+                    g = wrong[0]
+            what = (f"{'multi-allelic ' if multi else ''}record {s!r} ({s.family}: alleles 0={s.ref} " +
+                    " ".join(f"{k + 1}={x[0]}" for k, x in enumerate(s.alts)) + ")")
+            if g is None:
+                if mode in ("ref", "affine") and isolated and not any(per_aln.get(akey(m), {}).get(s.pos) == a for m in mates
+                                                                     if m["truth"][i]["full"]):
+                    ctx.fail(f"{mode}: allele {a} ({carried}) of {what} not found for an error-free, fully covering read (isolated"
+                             + (f", {near_n} bp from an N skip" if near_skip else "") + ")", where(),
+                             key=f"mav-{mode}-allele-not-found-isolated" + ("-near-refskip" if near_skip else ""))
+                elif mode == "noref" and valid is not None and vidx[i] not in valid:
+                    ctx.observe("noref: multi-allelic record discarded as conflicting (same normalised position / inside a deletion)")
+                else:
+                    ctx.observe(f"{mode}: no allele recorded for a fully covering read over a {s.family} record (carried or NONE: allowed)")
+                continue
+            msg = (f"{mode}: WRONG allele {g} ({s.kind_of(g)}, {s.ref if g == 0 else s.alts[g - 1][0]}) recorded, the read's haplotype carries "
+                   f"allele {a} ({carried}, {s.ref if a == 0 else s.alts[a - 1][0]}) of {what}; error-free, fully covering read, indel at the "
+                   f"allele's normalised position" + (f", {near_n} bp from an N skip" if near_skip else ""))
+            if mode == "noref":
+                if not demanded_noref:
+                    ctx.observe("noref: wrong allele for a record with an MNP allele (not claimed without a reference)")
+                    continue
+                ctx.fail(msg, where(), key=mav_noref_key(s, a, g, isolated))
+                continue
+            inherent = any(per_aln_model.get(akey(m), {}).get(s.pos) == g for m in mates if m["truth"][i]["full"])
+            if not isolated and inherent:
+                ctx.fail(msg + "; second non-REF allele of the same haplotype inside the ±10 bp window", where(), key=KEY_F11)
+            elif not isolated:
+                ctx.fail(msg + "; not what the window re-alignment as modelled gives (not F11)", where(),
+                         key=f"mav-wrong-allele-{mode}-close-not-inherent")
+            else:
+                ctx.fail(msg, where(), key=f"mav-wrong-allele-{mode}-isolated" + ("-near-refskip" if near_skip else ""))
+
+
+KEY_F126 = "mav-noref-insertion-allele-called-ref-at-ins-del-site"
+
+
+def mav_noref_key(s, a, g, isolated):
+    kinds = {x[1] for x in s.alts}
+    if g == 0 and s.kind_of(a) == "ins" and "del" in kinds and kinds <= {"ins", "del"}:
+        # F126: every ALT keeps the anchor base, so the joint normalisation of the multi-allelic record strips it; the insertion
+        # allele becomes "inserted bases + rest of REF", which the allele tracker (matches first, then insertions) cannot follow, the
+        # I operation in front of the (shifted) record is ignored and the bases behind it match REF
+        return KEY_F126
+    return f"mav-wrong-allele-noref-{s.family}" + ("" if isolated else "-close")
+
+
+def f126_unjudged(nvjson, start, cigar):
+    """proposed repair fixes/F126.patch, as an adapter on the model of the unchanged detector (C06_FIXED=F126): a record with
+    a non-empty normalised REF and an ALT longer than it is not judged on an alignment with an I operation directly in front of
+    it (removing one entry of the queue changes nothing for the others: every entry is advanced by every operation on its own)"""
+    ipos, r = set(), start
+    for op, n in cigar:
+        if op == 1:
+            ipos.add(r)
+        elif op in (0, 2, 3, 7, 8):
+            r += n
+    return {k for k, (p, ref, alts) in enumerate(nvjson) if len(ref) > 0 and p in ipos and any(len(x) > len(ref) for x in alts)}
+
+
+# ------------------------------------------------------------------------------------------------
 # exhaustive small space (thorough tier)
 # ------------------------------------------------------------------------------------------------
 
@@ -1195,6 +1451,25 @@ def _run(ctx):
             ctx.sample({"stream": stream, "variants": [repr(v) for v in sc.hvars][:6],
                         "reads": [{"start": r_["start"], "cigar": sim_cigar(r_["cigar"]), "hap": r_["hap"]} for r_ in sc.reads[:3]]})
         run_scenario(ctx, case, f"{stream}#{k}")
+    # multi-allelic records in the ground-truth streams (after the older streams: their PRNG sequence is unchanged)
+    n_mav = (70 if q else 2000) * s
+    for k in range(n_mav):
+        case = gen_mav_case(rng)
+        if k < 2:
+            ctx.sample({"stream": case["stream"], "sites": [repr(MV.MSite.from_list(x)) for x in case["sites"]][:6], "haps": [h[:6] for h in case["haps"]],
+                        "reads": [{"start": r_["start"], "cigar": sim_cigar(r_["cigar"]), "hap": r_["hap"]} for r_ in case["reads"][:3]]})
+        run_mav_scenario(ctx, case, f"{case['stream']}#{k}")
+
+
+def gen_mav_case(rng):
+    r = rng.random()
+    stream = "isolated" if r < 0.5 else ("close" if r < 0.85 else "twins")
+    alphabet = "ACGT" if rng.random() < 0.7 else rng.choice(["AC", "ACG"])
+    sc = MV.MavScenario(rng, stream=stream, n_reads=rng.randrange(30, 70), alphabet=alphabet, ploidy=rng.choice([2, 2, 2, 3, 4]),
+                        decorations=(rng.random() < 0.85), paired=rng.choice([0.0, 0.0, 0.3]), p_multi=rng.choice([0.5, 0.8, 1.0]))
+    case = sc.to_case()
+    case["cfg"] = {"restricted": rng.random() < 0.4}
+    return case
 
 
 def sim_cigar(c):
@@ -1203,12 +1478,16 @@ def sim_cigar(c):
 
 def replay_case(ctx, c, label):
     kind = c.get("stream") or c.get("kind")
-    if "label" in c and "case" in c and isinstance(c["case"], dict) and "reads" in c["case"]:
+    if "label" in c and isinstance(c.get("case"), dict) and "sites" in c["case"]:
+        run_mav_scenario(ctx, minimal(c), label)
+    elif "label" in c and "case" in c and isinstance(c["case"], dict) and "reads" in c["case"]:
         run_scenario(ctx, minimal(c), label)
     elif kind == "filter" and "records" in c:
         run_filter_case(ctx, c, label)
     elif kind == "filter" or ("label" in c and isinstance(c.get("case"), dict) and c["case"].get("stream") == "filter"):
         run_filter_case(ctx, c["case"], label)
+    elif kind and kind.startswith("mav-"):
+        run_mav_scenario(ctx, c, label)
     elif kind in ("isolated", "close", "twins"):
         run_scenario(ctx, c, label)
     elif kind == "affine":
